@@ -3,11 +3,14 @@
 # runs tools/seed_eval.sh for patch_A/patch_B of each ID, <jobs> at a time, one log per seed in <log dir>
 J=$1; LOG=$2; PRE=$3; shift 3
 mkdir -p $LOG
+LIST=$(mktemp)
 for SPEC in "$@"; do
   P=${SPEC%%:*}; EXTRA=""
   case "$SPEC" in *:*) EXTRA=$(echo ${SPEC#*:} | tr ',' ' ');; esac
   for X in A B; do
-    [ -f $PRE$P/seed/patch_$X.diff ] && echo "$P $X $EXTRA"
+    [ -f $PRE$P/seed/patch_$X.diff ] && echo "timeout 2400 /verif/tools/seed_eval.sh $PRE$P/seed/patch_$X.diff $PRE$P/seed/demo_$X.py $P $EXTRA > $LOG/${P}_$X.log 2>&1" >> $LIST
   done
-done | xargs -P $J -L 1 sh -c 'P=$0; X=$1; shift 1; shift 0; EX="$*"; EX=${EX#"$X"}; timeout 2400 /verif/tools/seed_eval.sh '"$PRE"'$P/seed/patch_$X.diff '"$PRE"'$P/seed/demo_$X.py $P $EX > '"$LOG"'/${P}_$X.log 2>&1'
+done
+xargs -P $J -I{} sh -c "{}" < $LIST
+rm -f $LIST
 for F in $LOG/*.log; do echo "######## $(basename $F .log)"; grep "^OK\|^VIOL\|FAIL\|^PASS\|^== check\|HARNESS\|PATCH DID NOT" $F | cut -c1-150; done
